@@ -45,6 +45,7 @@ class RenderContext:
     __slots__ = (
         "template",
         "globals",
+        "root_globals",
         "disabled_tags",
         "parent",
         "_copy_depth",
@@ -64,6 +65,7 @@ class RenderContext:
         template: Template,
         *,
         global_data: Mapping[str, object] | None = None,
+        root_globals: Mapping[str, object] | None = None,
         disabled_tags: set[str] | None = None,
         parent: RenderContext | None = None,
         copy_depth: int = 0,
@@ -72,6 +74,9 @@ class RenderContext:
     ) -> None:
         self.template = template
         self.globals = global_data if global_data is not None else {}
+        # What an isolated copy of this context starts from: the data the template
+        # was rendered with, without the arguments or scope of any enclosing partial.
+        self.root_globals = root_globals if root_globals is not None else self.globals
         self.disabled_tags = disabled_tags or set()
         self.parent = parent
         self._copy_depth = copy_depth
@@ -360,6 +365,7 @@ class RenderContext:
             ctx = self.__class__(
                 template or self.template,
                 global_data=ReadOnlyChainMap(namespace, self.scope),
+                root_globals=self.root_globals,
                 disabled_tags=disabled_tags,
                 copy_depth=self._copy_depth + 1,
                 parent=self,
@@ -372,7 +378,8 @@ class RenderContext:
         else:
             ctx = self.__class__(
                 template or self.template,
-                global_data=ReadOnlyChainMap(namespace, self.globals),
+                global_data=ReadOnlyChainMap(namespace, self.root_globals),
+                root_globals=self.root_globals,
                 disabled_tags=disabled_tags,
                 copy_depth=self._copy_depth + 1,
                 parent=self,
